@@ -730,7 +730,7 @@ func (p *parser) parseCallExpression(function ast.Expression) ast.Expression {
 	}
 
 	if p.peekTokenIs(token.DOT) {
-		calleeIdent := &ast.Identifier{Value: exp.Function.String(), Synthetic: true}
+		calleeIdent := &ast.Identifier{Value: syntheticName(exp.Function), Synthetic: true}
 		p.nextToken()
 		p.nextToken()
 		parseExp := p.parseExpression(LOWEST)
@@ -787,7 +787,7 @@ func (p *parser) parseIndexExpression(left ast.Expression) ast.Expression {
 	}
 
 	if p.peekTokenIs(token.DOT) {
-		calleeIdent := &ast.Identifier{Value: left.String(), Synthetic: true}
+		calleeIdent := &ast.Identifier{Value: syntheticName(left), Synthetic: true}
 		p.nextToken()
 		p.nextToken()
 		parseExp := p.parseExpression(LOWEST)
@@ -806,6 +806,37 @@ func (p *parser) parseIndexExpression(left ast.Expression) ast.Expression {
 	}
 
 	return exp
+}
+
+// syntheticName is the name under which the value of exp is known to the
+// rest of a path (exp[0].x, exp().x); it is also what messages call it. It
+// is made without printing all of exp: the printed form of the path contains
+// the name, so a name as long as exp itself would double the text at every
+// level of (((a)[0].b)[0].b)... - and printing exp at every level of such a
+// path would take time cubic in its depth.
+func syntheticName(exp ast.Expression) string {
+	return syntheticNameDepth(exp, 3)
+}
+
+func syntheticNameDepth(exp ast.Expression, depth int) string {
+	if depth == 0 {
+		return "..."
+	}
+	name := "(...)"
+	switch e := exp.(type) {
+	case *ast.Identifier:
+		name = e.String()
+	case *ast.IndexExpression:
+		name = syntheticNameDepth(e.Left, depth-1) + "[" + syntheticNameDepth(e.Index, 1) + "]"
+	case *ast.CallExpression:
+		name = syntheticNameDepth(e.Function, depth-1) + "()"
+	case *ast.StringLiteral, *ast.IntegerLiteral:
+		name = e.String()
+	}
+	if len(name) > 64 {
+		name = name[:61] + "..."
+	}
+	return name
 }
 
 func (p *parser) assignCallee(exp ast.Expression, calleeIdent *ast.Identifier) (assignedCallee ast.Expression) {
